@@ -210,6 +210,17 @@ def main():
             got = [flat(f), flat(i_)]
             want = [list(o["val"][0]), list(o["val"][1])]
             gotj = [flat(jax.jit(pt.forward)(params)), flat(jax.jit(pt.inverse)(params))]
+            # the same pytree with a REPEATED parameter name (jaxley's parameter lists repeat names: one entry per make_trainable
+            # call): every entry still goes through the transform at its own position
+            tree_tf2 = [{"a": custom(ts[0])}, {"a": custom(ts[1])}, {"b": custom(ts[2])}]
+            params2 = [{"a": jnp.asarray([v[0]])}, {"a": jnp.asarray([v[1]])}, {"b": jnp.asarray([v[2]])}]
+            pt2 = T.ParamTransform(tree_tf2)
+            flat2 = lambda r: [int(r[0]["a"][0]), int(r[1]["a"][0]), int(r[2]["b"][0])]
+            got2 = [flat2(pt2.forward(params2)), flat2(pt2.inverse(params2))]
+            nstruct += 1
+            if got2 != want:
+                chk.violation({"structure": "tree_repeated_names", "what": "composition / masking / pytree routing differs from Transforms.tla"},
+                              {"obj": o["obj"], "got": got2, "want": want})
         if got != want or gotj != want:
             chk.violation({"structure": o["kind"], "what": "composition / masking / pytree routing differs from Transforms.tla"},
                           {"obj": o["obj"], "got": got, "got_jit": gotj, "want": want})
